@@ -606,14 +606,17 @@ package pipeline
 //@   requires len(p.busyActions) == len(p.actions) && len(p.actionInfos) == len(p.actions)
 //@   ensures nout <= 1 && (nout == 1) == (passed && !unlock)
 //@   ensures result == !(passed && unlock)
+//@   ensures len(p.busyActions) == len(p.actions) && len(p.actionInfos) == len(p.actions)
 //@   callee processEvent(e) (ok, ev)
 //@     ensures ok ==> ev != nil
+//@     ensures len(p.busyActions) == len(p.actions) && len(p.actionInfos) == len(p.actions)
 //@     set passed := ok
 //@   callee IsUnlockKind() (r)
 //@     pure
 //@     set unlock := r
 //@   callee Out(e)
 //@     requires passed && !unlock && nout == 0 && e == event
+//@     preserves processor
 //@     set nout := nout + 1
 
 // processEvent: after a hold / collapse the next event is taken from the same
@@ -630,6 +633,7 @@ package pipeline
 //@   requires event.kind != EventKindTimeout
 //@   requires len(p.busyActions) == len(p.actions) && len(p.actionInfos) == len(p.actions)
 //@   ensures result0 ==> result1 != nil
+//@   ensures len(p.busyActions) == len(p.actions) && len(p.actionInfos) == len(p.actions)
 //@   loop 1 invariant event != nil && event.action >= 0 && len(p.busyActions) == len(p.actions) && len(p.actionInfos) == len(p.actions)
 //@   loop 1 invariant event.kind == EventKindTimeout ==> (event.action < len(p.busyActions) && p.busyActions[event.action]) || (forall k :: 0 <= k && k < len(p.busyActions) ==> !p.busyActions[k])
 //@   loop 2 invariant event != nil && event.kind == EventKindTimeout && len(p.busyActions) == len(p.actions) && len(p.actionInfos) == len(p.actions) && lastAction >= 0
@@ -652,6 +656,7 @@ package pipeline
 //@ func (*processor).Propagate
 //@   ghost a0 int = 0
 //@   requires event != nil && event.action >= 0 && event.kind != EventKindTimeout
+//@   requires event.action < len(p.busyActions)
 //@   requires len(p.busyActions) == len(p.actions) && len(p.actionInfos) == len(p.actions)
 //@   ghost released bool = false
 //@   setat "event.action++" a0 := event.action
@@ -879,6 +884,7 @@ package pipeline
 
 //@ func (*streamer).makeCharged
 //@   ghost nsig int = 0
+//@   requires stream != nil
 //@   ensures nsig == 1
 //@   callee Signal()
 //@     pure
@@ -1076,3 +1082,128 @@ package pipeline
 //@     requires nsleep == nmaint + 1
 //@     preserves Pipeline
 //@     set nmaint := nmaint + 1
+
+// ---------------------------------------------------------------------------
+// C04 / C02 / C15: blockGet (the owner of a stream waits for its next event).
+// While it sleeps the stream is on the streamer's blocked list with a fresh block
+// time - that is the only thing that lets the heartbeat send the time-out that wakes
+// an owner whose stream stays silent (no wedge) - and it is taken off the list again
+// before the queue is looked at.  It returns the head of the queue, never nil.
+
+//@ func (*stream).blockGet
+//@   option allow-exit yes
+//@   ghost nblk int = 0
+//@   ghost stamped bool = false
+//@   ensures !held(s.mu)
+//@   ensures result != nil
+//@   ensures nblk == 0
+//@   loop 1 invariant held(s.mu) && nblk == 0 && !stamped && (s.isDetaching ==> s.isAttached)
+//@   callee Now() (t)
+//@     pure
+//@     set stamped := true
+//@   callee makeBlocked(st)
+//@     requires st == s && nblk == 0 && stamped && s.first == nil
+//@     preserves stream, Event
+//@     set nblk := nblk + 1
+//@   callee Wait()
+//@     requires nblk == 1
+//@   callee resetBlocked(st)
+//@     requires st == s && nblk == 1
+//@     preserves stream, Event
+//@     set nblk := nblk - 1
+//@     set stamped := false
+//@   callee get() (r)
+//@     requires s.first != nil && nblk == 0
+
+// attach: a processor takes an unowned, non-empty stream; afterwards it is the owner.
+
+//@ func (*stream).attach
+//@   option allow-exit yes
+//@   ensures !held(s.mu)
+
+// ---------------------------------------------------------------------------
+// C04 / C02: the charged list (streams that have events and no owner), guarded by
+// chargedMu.  joinStream pops one stream under the lock and attaches to it after the
+// lock is released (put holds the stream lock when it calls makeCharged, i.e. the lock
+// order is stream.mu before chargedMu: attaching under chargedMu would invert it).  It
+// gives up (nil) only when the streamer is stopping.
+
+//@ monitor streamer.chargedMu
+//@   self s
+//@   cond chargedCond
+//@   protects charged
+//@   invariant forall i :: 0 <= i && i < len(s.charged) ==> s.charged[i] != nil
+
+//@ func (*streamer).joinStream
+//@   ghost stopping bool = false
+//@   ghost natt int = 0
+//@   ensures !held(s.chargedMu)
+//@   ensures result == nil ==> stopping && natt == 0
+//@   ensures result != nil ==> natt == 1
+//@   loop 1 invariant held(s.chargedMu) && natt == 0 && (forall i :: 0 <= i && i < len(s.charged) ==> s.charged[i] != nil)
+//@   callee Load() (r)
+//@     pure
+//@     set stopping := r
+//@   callee attach()
+//@     requires !held(s.chargedMu) && natt == 0 && recv == stream
+//@     preserves streamer
+//@     set natt := natt + 1
+
+// ---------------------------------------------------------------------------
+// C04 / C13 / C15: the busy table of a processor.  busyActionsTotal counts the actions
+// marked busy: marking an action twice or releasing a free one changes nothing.
+
+//@ func (*processor).tryMarkBusy
+//@   option allow-exit yes
+//@   requires 0 <= index && index < len(p.busyActions)
+//@   modifies p.busyActions[index], p.busyActionsTotal
+//@   ensures p.busyActions[index]
+//@   ensures p.busyActionsTotal == old(p.busyActionsTotal) + ite(old(p.busyActions[index]), 0, 1)
+
+//@ func (*processor).tryResetBusy
+//@   option allow-exit yes
+//@   requires 0 <= index && index < len(p.busyActions)
+//@   modifies p.busyActions[index], p.busyActionsTotal
+//@   ensures !p.busyActions[index]
+//@   ensures p.busyActionsTotal == old(p.busyActionsTotal) - ite(old(p.busyActions[index]), 1, 0)
+
+// ---------------------------------------------------------------------------
+// C04 / C02: the processor's main loop.  A processor counts as active exactly while it
+// discharges a stream; it stops only when the streamer says so.  dischargeStream keeps
+// taking events of the stream it owns until the stream is empty (instantGet then
+// releases it) or an unlock event asks the processor to stop.
+
+//@ func (*processor).process
+//@   ghost nact int = 0
+//@   requires len(p.busyActions) == len(p.actions) && len(p.actionInfos) == len(p.actions)
+//@   loop 1 invariant nact == 0 && len(p.busyActions) == len(p.actions) && len(p.actionInfos) == len(p.actions)
+//@   callee joinStream() (st)
+//@     requires nact == 0
+//@     preserves processor
+//@   callee Inc() (r)
+//@     pure
+//@     requires nact == 0
+//@     set nact := nact + 1
+//@   callee dischargeStream(st)
+//@     requires nact == 1 && st != nil
+//@     preserves processor
+//@   callee Dec() (r)
+//@     pure
+//@     requires nact == 1
+//@     set nact := nact - 1
+
+//@ func (*processor).dischargeStream
+//@   ghost last_nil bool = false
+//@   ghost last_ok bool = true
+//@   requires st != nil
+//@   requires len(p.busyActions) == len(p.actions) && len(p.actionInfos) == len(p.actions)
+//@   ensures last_nil || !last_ok
+//@   loop 1 invariant last_ok && !last_nil && len(p.busyActions) == len(p.actions) && len(p.actionInfos) == len(p.actions)
+//@   callee instantGet() (e)
+//@     requires recv == st
+//@     preserves processor
+//@     ensures e != nil ==> e.action >= 0 && e.kind != EventKindTimeout
+//@     set last_nil := e == nil
+//@   callee processSequence(e) (ok)
+//@     requires e != nil
+//@     set last_ok := ok
